@@ -30,7 +30,7 @@ REQUIRED_COUNTERS = ['backend_runs', 'node_evaluations', 'declarations_checked']
 
 
 def time_limit(tier):
-    return 900 if tier == 'quick' else 5400
+    return common.default_limit(tier)
 
 
 def budget(tier):
